@@ -240,6 +240,10 @@ class Repo:
                 for t in node.targets:
                     if isinstance(t, ast.Name):
                         ci.class_attrs[t.id] = node.value
+                    elif isinstance(t, (ast.Tuple, ast.List)) and isinstance(node.value, (ast.Tuple, ast.List)) and len(t.elts) == len(node.value.elts):
+                        for te, ve in zip(t.elts, node.value.elts):          # A, B = 1, 2 at class level
+                            if isinstance(te, ast.Name):
+                                ci.class_attrs[te.id] = ve
             elif isinstance(node, ast.AnnAssign) and isinstance(node.target, ast.Name) and node.value is not None:
                 ci.class_attrs[node.target.id] = node.value
 
